@@ -16,7 +16,7 @@ func init() {
 		ID:          "C08",
 		Explanation: "Decided: (checks) every translation arm of an operation that the Go spec says must be able to panic carries its run-time check — index read/write on arrays, pointers to arrays, slices and strings, slice expressions, nil-map store, integer division, make bounds, slice-to-array conversion, type assertion, nil array pointer (read and write arm agree), close/send on nil or closed channels, comparison of uncomparable interface values; (errors) $throwRuntimeError is installed by runtime.init and raises a value with a RuntimeError method, TypeAssertionError has one too; (defer) defer evaluates callee and arguments at the statement, functions with defers get the deferral prologue and the finally epilogue under the same condition, builtins and js.Object methods are wrapped before delegation; LINK arity/guard obligations on the helpers. NOT decided: $callDeferred/$panic/$recover stack-depth logic, nested/re-panic behaviour, the position of the panic in the evaluation order.",
 		Assumptions: []string{"the natives overlay is analysed syntactically only"},
-		Rules:       []RuleFunc{ruleC08Checks, ruleC08Errors, ruleC08Defer, ruleC08DynScope, ruleC06Div0, ruleNegativeShift, ruleC03Close, ruleC03Wakers, ruleL3, ruleC02Protocol, ruleC01NamedResults, ruleStructComparable, ruleDelegatedArgs, ruleC02DeferredSuspendFirst, ruleDeferRecover, ruleDeferredAfterRecovery, ruleRuntimeErrorTypes, ruleC15UnhashablePanics},
+		Rules:       []RuleFunc{ruleC08Checks, ruleC08Errors, ruleC08Defer, ruleC08DynScope, ruleC06Div0, ruleNegativeShift, ruleOperandOrder, ruleC03Close, ruleC03Wakers, ruleL3, ruleC02Protocol, ruleC01NamedResults, ruleStructComparable, ruleDelegatedArgs, ruleC02DeferredSuspendFirst, ruleDeferRecover, ruleDeferredAfterRecovery, ruleRuntimeErrorTypes, ruleC15UnhashablePanics},
 	})
 }
 
